@@ -64,7 +64,10 @@ def body(case, rec, tol=1e-7):
     rec.case()
     from vlib.meshdrive import exc_site
     try:
-        live, test, trial, reason = pairs.realise(case)
+        if case['fam'] == 'boxes':
+            live, test, trial, reason = realise_boxes_case(case)
+        else:
+            live, test, trial, reason = pairs.realise(case)
     except Exception as ex:
         if exc_site(ex) == 'harness':
             raise
@@ -88,6 +91,16 @@ def body(case, rec, tol=1e-7):
     try:
         SL = operator(live, exact)
         with repo.quiet():
+            warm = case.get('warm', 0) % 6
+            if warm == 1:
+                # the driver's other uses of the same object must not leave state behind that changes an entry
+                SL.rhs_vector(lambda t, x: t * 0 + 1.0, gauss_order=[1, 3, 5, 7][case.get('warm', 0) // 6 % 4])
+            elif warm == 2:
+                SL.evaluate_vector(float(tt[1]), float(0.5 * (tx[0] + tx[1])))
+            elif warm == 3:
+                SL.potential_vector(float(tt[1]), np.array([[0.37], [0.41]]))
+            elif warm == 4:
+                SL.bilform_matrix(live.leaves()[:3], live.leaves()[:4])
             val = float(SL.bilform(trial, test))
     except Exception as ex:
         if exc_site(ex) == 'harness':
@@ -122,18 +135,68 @@ def body(case, rec, tol=1e-7):
         rec.sample(cj)
 
 
+def extreme_aspect_family():
+    """deterministic pairs at the edge of the aspect bound: an element of aspect exactly 32 and a touching / nearby
+    element up to three time levels finer that starts at or shortly after its end time (and the mirrored roles), on the
+    unit square (default grid), both switches"""
+    from vlib.pairs import UU
+    out = []
+    spec = {'kind': 'param', 'curve': 'UnitSquare', 'ts': [0.0, 1.0], 'xs': None}
+    for lxA in (1, 2):
+        ltA = 2 * lxA + 5                               # h_x^2 / h_t = 32
+        for root, kA in ((0, 0), (0, (1 << lxA) - 1), (3, (1 << lxA) - 1)):
+            for dlx in (0, 1, 2):
+                lxB = lxA + dlx
+                for dlt in (0, 1, 2, 3):
+                    ltB = ltA + dlt
+                    if (0.5 ** lxB) ** 2 / 0.5 ** ltB > 32:
+                        continue
+                    for gap in (0, 1, 2):
+                        for where in ('right', 'left'):
+                            out.append({'fam': 'boxes', 'spec': spec, 'A': [root, lxA, kA, ltA, 0], 'B': [lxB, ltB, gap, where]})
+    return out
+
+
+def realise_boxes_case(case):
+    from vlib.pairs import box_from, realise_boxes, UU
+    from vlib.meshreal import Live
+    probe = Live(case['spec'])
+    root, lxA, kA, ltA, ktA = case['A']
+    lxB, ltB, gap, where = case['B']
+    lenA, lenB = UU >> lxA, UU >> lxB
+    pA = root * UU + kA * lenA
+    pB = pA + lenA if where == 'right' else pA - lenB
+    tA, tB = UU >> ltA, UU >> ltB
+    qA = ktA * tA
+    qB = qA + tA + gap * tB
+    A = box_from(probe.n_t, probe.n_x, qA, ltA, pA, lxA, probe.glued)
+    B = box_from(probe.n_t, probe.n_x, qB, ltB, pB, lxB, probe.glued)
+    if A is None or B is None:
+        return None, None, None, 'class_not_constructible_here'
+    if case.get('swap_roles'):
+        return realise_boxes(case['spec'], A, B)
+    return realise_boxes(case['spec'], B, A)         # test = the later, finer element
+
+
 def cases():
     ex = st.booleans()
     causal = [c for c in pairs.TIME_CLASSES if not c.startswith('acausal')] * 3 + ['acausal_touch']
-    tg = st.builds(lambda c, e: dict(c, exact=e), pairs.target_cases(time_classes=causal), ex)
-    hi = st.builds(lambda c, e: dict(c, exact=e), pairs.history_cases(), ex)
-    pc = st.builds(lambda c, e: dict(c, exact=e), pairs.piece_cases(), ex)
+    wm = st.integers(0, 23)
+    tg = st.builds(lambda c, e, w: dict(c, exact=e, warm=w), pairs.target_cases(time_classes=causal), ex, wm)
+    hi = st.builds(lambda c, e, w: dict(c, exact=e, warm=w), pairs.history_cases(), ex, wm)
+    pc = st.builds(lambda c, e, w: dict(c, exact=e, warm=w), pairs.piece_cases(), ex, wm)
     return st.one_of(tg, tg, tg, hi, pc)
 
 
 def run(ctx):
     if ctx.k == 0:
         selftest()
+    fam = extreme_aspect_family()
+    jobs = [dict(c, exact=e) for c in fam for e in (True, False)]
+    if ctx.quick:
+        jobs = [j for k, j in enumerate(jobs) if j['exact'] or (k + ctx.seed) % 4 == 0]
+    for case in ctx.mine(jobs):
+        body(case, ctx.rec)
     n = ctx.share(1600 if ctx.quick else 16000)
     explore(ctx, cases(), body, n)
 
